@@ -714,7 +714,7 @@ fn c16_case(req: &str) -> Case {
     let st = kvs(req, "stalled").unwrap();
     let stages: Vec<&str> = if st == "-" { vec![] } else { st.split(',').collect() };
     rt().block_on(async {
-        let srv = Srv::start(&SrvOpts { proxy: if proxy { Some((true, true)) } else { None }, limiter: if limiter { Some(1000) } else { None }, timeout: Duration::from_secs(4), gated: true, ..Default::default() });
+        let srv = Srv::start(&SrvOpts { proxy: if proxy { Some((true, true)) } else { None }, limiter: if limiter { Some(2) } else { None }, timeout: Duration::from_secs(4), gated: true, ..Default::default() });
         let mut held = vec![];
         for s in &stages { held.push(stall(srv.port, proxy, s).await); }
         tokio::time::sleep(Duration::from_millis(50)).await;
